@@ -22,6 +22,7 @@ import (
 	"fmt"
 	"io"
 	"io/ioutil"
+	"math"
 	"mime/multipart"
 	"net/http"
 	"net/textproto"
@@ -110,44 +111,27 @@ func (m *Modifier) ModifyResponse(res *http.Response) error {
 	// Reset the Content-Encoding since we know that the new body isn't encoded.
 	res.Header.Del("Content-Encoding")
 
-	// If no range request header is present, return the body as the response body.
-	if res.Request.Header.Get("Range") == "" {
-		res.ContentLength = int64(len(m.body))
+	size := int64(len(m.body))
+
+	// The Range header is interpreted before the response is touched any
+	// further, so that every outcome leaves a consistent response behind.
+	ranges, outcome := parseRanges(res.Request.Header.Get("Range"), size)
+
+	switch outcome {
+	case rangeIgnored:
+		// No Range header, or one that is not a well-formed set of byte ranges
+		// (which is to be ignored): return the body as the response body.
+		res.ContentLength = size
 		res.Body = ioutil.NopCloser(bytes.NewReader(m.body))
 
 		return nil
-	}
+	case rangeNotSatisfiable:
+		res.StatusCode = http.StatusRequestedRangeNotSatisfiable
+		res.Header.Set("Content-Range", fmt.Sprintf("bytes */%d", size))
+		res.ContentLength = 0
+		res.Body = http.NoBody
 
-	rh := res.Request.Header.Get("Range")
-	rh = strings.ToLower(rh)
-	sranges := strings.Split(strings.TrimLeft(rh, "bytes="), ",")
-	var ranges [][]int
-	for _, rng := range sranges {
-		if strings.HasSuffix(rng, "-") {
-			rng = fmt.Sprintf("%s%d", rng, len(m.body)-1)
-		}
-
-		rs := strings.Split(rng, "-")
-		if len(rs) != 2 {
-			res.StatusCode = http.StatusRequestedRangeNotSatisfiable
-			return nil
-		}
-		start, err := strconv.Atoi(strings.TrimSpace(rs[0]))
-		if err != nil {
-			return err
-		}
-
-		end, err := strconv.Atoi(strings.TrimSpace(rs[1]))
-		if err != nil {
-			return err
-		}
-
-		if start > end {
-			res.StatusCode = http.StatusRequestedRangeNotSatisfiable
-			return nil
-		}
-
-		ranges = append(ranges, []int{start, end})
+		return nil
 	}
 
 	// Range request.
@@ -155,12 +139,11 @@ func (m *Modifier) ModifyResponse(res *http.Response) error {
 
 	// Single range request.
 	if len(ranges) == 1 {
-		start := ranges[0][0]
-		end := ranges[0][1]
+		start, end := ranges[0][0], ranges[0][1]
 		seg := m.body[start : end+1]
 		res.ContentLength = int64(len(seg))
 		res.Body = ioutil.NopCloser(bytes.NewReader(seg))
-		res.Header.Set("Content-Range", fmt.Sprintf("bytes %d-%d/%d", start, end, len(m.body)))
+		res.Header.Set("Content-Range", fmt.Sprintf("bytes %d-%d/%d", start, end, size))
 
 		return nil
 	}
@@ -174,7 +157,7 @@ func (m *Modifier) ModifyResponse(res *http.Response) error {
 		start, end := rng[0], rng[1]
 		mimeh := make(textproto.MIMEHeader)
 		mimeh.Set("Content-Type", m.contentType)
-		mimeh.Set("Content-Range", fmt.Sprintf("bytes %d-%d/%d", start, end, len(m.body)))
+		mimeh.Set("Content-Range", fmt.Sprintf("bytes %d-%d/%d", start, end, size))
 
 		seg := m.body[start : end+1]
 
@@ -194,6 +177,118 @@ func (m *Modifier) ModifyResponse(res *http.Response) error {
 	res.Header.Set("Content-Type", fmt.Sprintf("multipart/byteranges; boundary=%s", m.boundary))
 
 	return nil
+}
+
+// Outcomes of parseRanges.
+const (
+	// rangeIgnored: there is no Range header or it is not a well-formed set of
+	// byte ranges; the full body is to be served.
+	rangeIgnored = iota
+	// rangeNotSatisfiable: the header is well-formed but no range overlaps the
+	// body (or a first position is greater than its last position).
+	rangeNotSatisfiable
+	// rangePartial: at least one range can be served.
+	rangePartial
+)
+
+// parseRanges interprets a Range header value for a body of size bytes. For
+// rangePartial it returns the satisfiable ranges, in request order, as
+// inclusive [first, last] positions that all lie inside the body: a last
+// position beyond the end (or an absent one) is clamped to size-1, a suffix
+// range "-n" selects the last n bytes, and ranges that start at or after the
+// end are dropped.
+func parseRanges(header string, size int64) ([][2]int64, int) {
+	const unit = "bytes="
+	header = strings.TrimSpace(header)
+	if len(header) < len(unit) || !strings.EqualFold(header[:len(unit)], unit) {
+		return nil, rangeIgnored
+	}
+
+	var ranges [][2]int64
+	specs := 0
+	for _, spec := range strings.Split(header[len(unit):], ",") {
+		spec = strings.TrimSpace(spec)
+		if spec == "" {
+			continue
+		}
+		specs++
+
+		i := strings.Index(spec, "-")
+		if i < 0 {
+			return nil, rangeIgnored
+		}
+		first, last := strings.TrimSpace(spec[:i]), strings.TrimSpace(spec[i+1:])
+
+		if first == "" {
+			// Suffix range: the last n bytes of the body.
+			n, ok := parsePosition(last)
+			if !ok {
+				return nil, rangeIgnored
+			}
+			if n > size {
+				n = size
+			}
+			if n > 0 {
+				ranges = append(ranges, [2]int64{size - n, size - 1})
+			}
+			continue
+		}
+
+		start, ok := parsePosition(first)
+		if !ok {
+			return nil, rangeIgnored
+		}
+		end := size - 1
+		if last != "" {
+			if end, ok = parsePosition(last); !ok {
+				return nil, rangeIgnored
+			}
+			if start > end {
+				return nil, rangeNotSatisfiable
+			}
+			if end > size-1 {
+				end = size - 1
+			}
+		}
+		if start >= size {
+			// Starts beyond the end of the body: cannot be satisfied.
+			continue
+		}
+		ranges = append(ranges, [2]int64{start, end})
+	}
+
+	switch {
+	case specs == 0:
+		return nil, rangeIgnored
+	case len(ranges) == 0:
+		return nil, rangeNotSatisfiable
+	}
+	return ranges, rangePartial
+}
+
+// parsePosition parses a non-negative decimal byte position. Values too large
+// for an int64 are valid positions far beyond any body and saturate.
+func parsePosition(s string) (int64, bool) {
+	if s == "" {
+		return 0, false
+	}
+	for i := 0; i < len(s); i++ {
+		if s[i] < '0' || s[i] > '9' {
+			return 0, false
+		}
+	}
+
+	n, err := strconv.ParseUint(s, 10, 64)
+	if err != nil {
+		if ne, ok := err.(*strconv.NumError); ok && ne.Err == strconv.ErrRange {
+			return math.MaxInt64, true
+		}
+		return 0, false
+	}
+	if n > math.MaxInt64 {
+		return math.MaxInt64, true
+	}
+	return int64(n), true
 }
 
 // randomBoundary generates a 30 character string for boundaries for mulipart range
